@@ -1,5 +1,6 @@
 """C04 — garbage collection preserves the logical mesh (collect_garbage / leaving deferred mode)."""
 from props.kernel_check import run_kernel
+from props.c04_status import run_status
 
 
 def run(ctx):
@@ -7,3 +8,5 @@ def run(ctx):
         dict(profile="c04", kind="poly", traces=(128, 2000), ops=40, queries=0),
         dict(profile="c04", kind="tet", traces=(32, 400), ops=40, queries=0),
     ], level_when_proved="other")
+    # StatusAttrib::garbage_collection (both overloads, manifoldness option, tracked handles): tools/props/c04_status.py
+    ctx.coverage["status_gc"] = run_status(ctx)
